@@ -11,7 +11,9 @@
 (* qualifier names, four versions of a declaration):                       *)
 (*   SessionRoundTrip  a class is compiled with the qualifier typed and    *)
 (*                     flavored by the declaration that is in the          *)
-(*                     repository at that time                             *)
+(*                     repository at that time; every valid text is        *)
+(*                     accepted and its object arrives, also after texts   *)
+(*                     the compiler rejected (fail / inst steps)           *)
 (*   CacheCoherent     once the compiler has cached a declaration it is    *)
 (*                     the repository's                                    *)
 (*                                                                         *)
@@ -24,11 +26,12 @@
 EXTENDS MofTextDecl
 
 CONSTANTS KeyCaseSensitive, FlagIgnored, CacheSetDefault, CacheNotUpdated,
-          MaxKeys, MaxSteps, Emit
+          EmbModeSticks, MaxKeys, MaxSteps, Emit
 
 SV == [keyCaseSensitive |-> KeyCaseSensitive, flagIgnored |-> FlagIgnored]
 CV == [cacheSetDefault |-> CacheSetDefault,
-       cacheNotUpdated |-> CacheNotUpdated]
+       cacheNotUpdated |-> CacheNotUpdated,
+       embModeSticks |-> EmbModeSticks]
 
 VARIABLES sc, ss
 vars == <<sc, ss>>
@@ -58,6 +61,7 @@ CompileScope == /\ sc.phase = "text"
 Actions == {P(n, v) : n \in QNames, v \in Versions}
            \cup {D(n, v) : n \in QNames, v \in Versions}
            \cup {U(n) : n \in QNames}
+           \cup {Fl(k) : k \in FailKinds} \cup {In(k) : k \in InstKinds}
 SessStep == /\ ss.on /\ ss.n < MaxSteps
             /\ \E a \in Actions :
                  /\ Enabled(ss.s, a)
@@ -88,7 +92,14 @@ ASSUME ~Emit \/
             {d \in ScopeCases : \E i \in 1..NS : d[i].in /\ ~d[i].flag}
        /\ \A f \in {"keyCaseSensitive", "flagIgnored"} :
             PrintT(<<"REFUTED", f, Cardinality(RefS(f))>>)
-       /\ \A f \in {"cacheSetDefault", "cacheNotUpdated"} :
+       \* a failed NESTED compile followed by any valid text
+       /\ RefC("embModeSticks") =
+            {h \in Histories :
+               \E i \in DOMAIN h : /\ h[i].op = "fail"
+                                   /\ h[i].n \in EmbFailKinds
+                                   /\ \E j \in (i + 1)..Len(h) :
+                                        h[j].op \in {"declare", "use", "inst"}}
+       /\ \A f \in {"cacheSetDefault", "cacheNotUpdated", "embModeSticks"} :
             PrintT(<<"REFUTED", f, Cardinality(RefC(f))>>)
 
 ASSUME ~Emit \/ /\ \A d \in ScopeCases : PrintT(<<"SCOPECASE", CaseCode(d)>>)
